@@ -5,8 +5,8 @@ seed=$1; tier=$2; shift 2
 cd /repo || exit 2
 if ! git diff --quiet; then echo "/repo has uncommitted changes; refusing"; exit 2; fi
 git apply "/verif/seeded/$seed/patch.diff" || { echo "patch does not apply"; exit 2; }
-rm -rf /tmp/evidence.bak; cp -r /verif/evidence /tmp/evidence.bak
-trap 'git -C /repo checkout -- . ; rm -rf /verif/evidence; mv /tmp/evidence.bak /verif/evidence' EXIT
+export TCMC_OUT_DIR=/dev/shm/seedtry-$$   # evidence and replay files of a trial never touch /verif
+trap 'git -C /repo checkout -- . ; rm -rf $TCMC_OUT_DIR' EXIT
 cd /verif
 for id in "$@"; do
   out=$(./check "$id" --tier "$tier" 2>&1); code=$?
